@@ -52,6 +52,8 @@ def explore(ck: Check, slow: bool) -> None:
         p = tdp / "w.txt"; write_fixed_text(p, t, widths); files["COBOL_Text_File"] = (p, lambda path, fo=None: COBOL_Text_File(path, fo), cschema, "r")
         p = tdp / "w.ebc"; write_ebcdic(p, t, widths); files["COBOL_EBCDIC_File"] = (p, lambda path, fo=None: COBOL_EBCDIC_File(path, fo, recfm_class=E.RECFM_F, lrecl=30), cschema, "rb")
         p = tdp / "w.xlsx"; write_xlsx(p, {"S": t}); files["XLSX_Workbook"] = (p, lambda path, fo=None: open_workbook(path), "heading", None)
+        # the documented pass-through keyword: openpyxl's streaming mode keeps the archive open for the life of the document
+        files["XLSX_Workbook/read_only"] = (p, lambda path, fo=None: IM.XLSX_Workbook(path, read_only=True), "heading", None)
         xls = Path("/repo/sample/excel97_workbook.xls")
         if xls.exists():
             files["XLS_Workbook"] = (xls, lambda path, fo=None: open_workbook(path), "heading", None)
@@ -99,8 +101,13 @@ def explore(ck: Check, slow: bool) -> None:
                     except BaseException as ex:  # noqa: BLE001
                         ck.fail(f"lifecycle:{cls}", f"{cls}: unexpected {type(ex).__name__} at {point}: {str(ex)[:60]}", inp)
                     trace.append("exit")
+                    if cls.endswith("/read_only"):
+                        # openpyxl's streaming reader: a half-consumed row iterator that the CALLER still holds pins the archive
+                        # (zipfile keeps the file open while a member is open).  That is the caller's reference, not the workbook's:
+                        # the iteration is abandoned before the descriptors are counted.  No garbage collection is forced.
+                        it = row = sheet = None
                     left = fds_on(path)
-                    if got_cls is not None and got_cls != cls:
+                    if got_cls is not None and got_cls != cls.split("/")[0]:
                         ck.fail("opened-wrong-class", f"{path.suffix} opened as {got_cls}, registered class is {cls}", inp)
                     if left != 0:
                         sig = "numbers-fd-until-gc" if cls == "Numbers_Workbook" else f"leak:{cls}"
@@ -113,7 +120,7 @@ def explore(ck: Check, slow: bool) -> None:
                         trace += ["close", "close"]
                     except BaseException as ex:  # noqa: BLE001
                         ck.fail(f"double-close:{cls}", f"{cls}: closing an already closed workbook raises {type(ex).__name__}", inp)
-                    if cls != "Numbers_Workbook":
+                    if cls != "Numbers_Workbook" and "/" not in cls:
                         reqs.append("FAC life " + " ".join(trace))
                         impl.append(f"{left} true")
                         inputs.append(inp)
